@@ -7,7 +7,9 @@
 //   prog_drv <mode> --candidates <file>                print shrink candidates of the first program
 //   modes: grad (C01)  batch (C03)  api (C04)  backend (C08)  conv (documented conv2d/max_pool2d)
 // Output: one line per program, `ok` or `FAIL <mode> <program> :: <class> <details>`, then
-// `SUMMARY {json}`.
+// `SUMMARY {json}`: counts of the work done (programs, nontrivial, coords_*, extra.skipped_*: what was NOT
+// compared, ops: uses of every function in checked programs, gen: [attempts, rejected with Error, emitted] of the
+// generator per function).  engines/progcheck.py puts floors on them (violation `prog-floor`).
 #include <set>
 #include "prog_gen.h"
 using namespace prog;
@@ -51,16 +53,107 @@ static string fmt(double x) { char b[40]; snprintf(b, sizeof b, "%.7g", x); retu
 // Kinks: abs/relu/lrelu/prelu/elu/selu sign patterns and max/min/max_pool2d arg-extremum indices of
 // the perturbed runs are compared with the base run; a coordinate whose perturbation crosses a
 // kink is skipped and counted.
+//
+// Refinement (only for a coordinate that misses the tolerance above; it can only widen it, so the verdicts are
+// those of applying it everywhere).  The model above knows two things too little:
+//  (1) S takes the rounding error of L relative to |y|, but an output that is the difference of O(1)
+//      intermediates (logsumexp(log_softmax(x)) == 0, batch::normalize over 2 samples == +-0.707...) has an error
+//      relative to THOSE;  (2) backward() itself runs in float32: a gradient that is the sum of cancelling
+//      summands (concat({p,p}) into softmax_cross_entropy: +25 and -25) is exact only to 2^-24 of the summands.
+//  Both are bounded with the ABSOLUTE ADJOINTS  A_v[e] = sum over all paths from element e of value v to L of
+//  |product of the local partial derivatives| (reverse sweep over the program; the local Jacobian of every
+//  instruction is read off the library's own backward on a one-instruction graph, one unit seed per output
+//  element, every argument SLOT its own parameter so that f(a,a) shows both summands):
+//      noise' = 8 * 2^-24 * F / h,   F = sum over the elements of ALL values that differ between the two runs of
+//               A_v[e] * mu_v,  mu_v = max(max|v|, L * max|a| * max(1, max|b|))  (the per-instruction rounding scale
+//               of the backend oracle, prog_backend.h; leaves and data movement are exact, mu = 0);  noise' = max(noise, .);
+//      tol'   = tol(noise') + 16 * 2^-24 * (Ab_p[i] + |g0[i]|)   (no 2% gate here: 2 * noise' is in the tolerance),  Ab = the same sweep where every non-movement
+//               instruction passes on at least max(Ab_out) to each argument element (a backward kernel that cancels
+//               inside, gy * (softmax - onehot), has an error relative to gy, not to the tiny result).
+//  A wrong sign / index / missing term is of the order of one SUMMAND, six orders above 16 * 2^-24 * their sum.
 static const double H1 = 1.0 / 128;
+static double red_len(const Instr &I, const vector<Shape> &as);   // prog_backend.h
 
 struct GradRun { bool ok; FV y; vector<int> sig; };
-static GradRun eval_L(const Program &P, DevCtx &dc, ParamSet &ps, size_t ny, std::map<int, FV> *rec, std::map<int, FV> *use) {
+static GradRun eval_L(const Program &P, DevCtx &dc, ParamSet &ps, size_t ny, std::map<int, FV> *rec, std::map<int, FV> *use, vector<FV> *all = nullptr) {
   GradRun r; r.ok = false;
   try {
     Graph g; Graph::set_default(g);
     Exec<Node> ex(dc, ps); ex.sig = &r.sig; ex.freeze_rec = rec; ex.freeze_use = use; ex.run_all(P);
     r.y = ex.v.at(P.out).to_vector();
     r.ok = r.y.size() == ny && all_finite(r.y);
+    if (all) for (auto &n : ex.v) all->push_back(n.to_vector());
+  } catch (Error &) {} catch (BadProgram &) {}
+  return r;
+}
+typedef vector<double> DV;
+struct AbsAdj { bool ok; vector<DV> A, Ab; vector<double> mu; AbsAdj() : ok(false) {} };
+static AbsAdj abs_adjoints(const Program &P, DevCtx &dc, ParamSet &ps, const FV &w, std::map<int, FV> &frozen) {
+  AbsAdj r;
+  try {
+    vector<FV> val; vector<Shape> shp; vector<Device *> dev;
+    {
+      Graph g; Graph::set_default(g);
+      Exec<Node> ex(dc, ps); ex.freeze_use = &frozen; ex.run_all(P);
+      for (auto &n : ex.v) { val.push_back(n.to_vector()); shp.push_back(n.shape()); dev.push_back(&n.device()); }
+    }
+    size_t nv = val.size();
+    r.A.resize(nv); r.Ab.resize(nv); r.mu.assign(nv, 0.0);
+    for (size_t v = 0; v < nv; ++v) { r.A[v].assign(val[v].size(), 0.0); r.Ab[v].assign(val[v].size(), 0.0); }
+    for (size_t j = 0; j < w.size(); ++j) r.A[P.out][j] = r.Ab[P.out][j] = std::fabs(w[j]);
+    vector<int> first; { int k = 0; for (auto &I : P.ins) { first.push_back(k); k += I.nout(); } }
+    for (int i = (int)P.ins.size() - 1; i >= 0; --i) {
+      const Instr &I = P.ins[i];
+      if (op_is_leaf(I.code)) continue;
+      vector<Shape> as; double ma = 0, mb = 1;
+      for (size_t k = 0; k < I.a.size(); ++k) { as.push_back(shp[I.a[k]]); double m = maxabs(val[I.a[k]]); if (k == 0) ma = m; else mb = std::max(mb, m); }
+      if (!op_is_movement(I.code))   // data movement is exact
+        for (int o = 0; o < I.nout(); ++o) r.mu[first[i] + o] = std::max((double)maxabs(val[first[i] + o]), red_len(I, as) * ma * mb);
+      bool live = false;
+      for (int o = 0; o < I.nout(); ++o) for (double x : r.Ab[first[i] + o]) live = live || x > 0;
+      if (!live || I.code == OP_STOPGRAD) continue;
+      // one-instruction graph: every argument slot is its own parameter (one per minibatch sample)
+      Graph g; Graph::set_default(g);
+      ParamSet none; Exec<Node> ex(dc, none); ex.freeze_use = nullptr;
+      vector<vector<std::unique_ptr<Parameter>>> sp(I.a.size());
+      Instr I2 = I;
+      for (size_t k = 0; k < I.a.size(); ++k) {
+        int a = I.a[k]; uint32_t B = shp[a].batch(); size_t vol = shp[a].volume(); vector<Node> parts;
+        for (uint32_t b = 0; b < B; ++b) {
+          sp[k].emplace_back(new Parameter(shp[a].resize_batch(1), FV(val[a].begin() + b * vol, val[a].begin() + (b + 1) * vol), *dev[a]));
+          parts.push_back(F::parameter<Node>(*sp[k].back()));
+        }
+        ex.v.push_back(B > 1 ? F::batch::concat(parts) : parts[0]); I2.a[k] = (int)k;
+      }
+      size_t na = I.a.size();
+      ex.run(I2, i);
+      for (int o = 0; o < I.nout(); ++o) {
+        int vo = first[i] + o; const Node &out = ex.v.at(na + o);
+        vector<DV> acc(na), accb(na); for (size_t k = 0; k < na; ++k) { acc[k].assign(val[I.a[k]].size(), 0.0); accb[k] = acc[k]; }
+        double mout = 0; for (double x : r.Ab[vo]) mout = std::max(mout, x);
+        if (mout == 0) continue;
+        for (size_t j = 0; j < val[vo].size(); ++j) {
+          if (r.A[vo][j] == 0 && r.Ab[vo][j] == 0) continue;
+          FV e(val[vo].size(), 0.f); e[j] = 1.f;
+          for (auto &s : sp) for (auto &q : s) q->reset_gradient();
+          F::multiply(out, F::input<Node>(shp[vo], e, dev[vo])).backward();
+          for (size_t k = 0; k < na; ++k) {
+            size_t vol = shp[I.a[k]].volume();
+            for (size_t b = 0; b < sp[k].size(); ++b) {
+              FV gq = sp[k][b]->gradient().to_vector();
+              for (size_t q = 0; q < vol; ++q) { double x = std::fabs(gq[q]); acc[k][b * vol + q] += r.A[vo][j] * x; accb[k][b * vol + q] += r.Ab[vo][j] * x; }
+            }
+          }
+        }
+        for (size_t k = 0; k < na; ++k) for (size_t q = 0; q < acc[k].size(); ++q) {
+          r.A[I.a[k]][q] += acc[k][q];
+          r.Ab[I.a[k]][q] += op_is_movement(I.code) ? accb[k][q] : std::max(accb[k][q], mout);
+        }
+      }
+    }
+    r.ok = true;
+    for (auto &v : r.A) for (double x : v) r.ok = r.ok && std::isfinite(x);
+    for (auto &v : r.Ab) for (double x : v) r.ok = r.ok && std::isfinite(x);
   } catch (Error &) {} catch (BadProgram &) {}
   return r;
 }
@@ -90,7 +183,7 @@ static Verdict check_grad(const Program &P, Stats &st) {
   std::map<int, FV> frozen;
   GradRun base = eval_L(P, dc, ps, w.size(), &frozen, nullptr);
   if (!base.ok) return Verdict();
-  Verdict vd; long checked = 0;
+  Verdict vd; long checked = 0; AbsAdj aa; bool aa_done = false;
   for (size_t k = 0; k < keys.size(); ++k) {
     Parameter &p = *ps.ps[keys[k]];
     FV val = p.value().to_vector(); double gref = 0;
@@ -121,6 +214,33 @@ static Verdict check_grad(const Program &P, Stats &st) {
         if (g_verbose) fprintf(stderr, "  illcond p%d[%zu] g=%.6g fd*=%.6g d=%.3g noise=%.3g\n", keys[k], i, g, est, d, noise);
         continue; }
       double tol = 0.01 * scale + 2 * (d + noise) + 1e-3 * gref + 1e-5, err = std::fabs(g - est);
+      if (err > tol) {   // refinement (see above): rounding of the intermediates and of backward() itself
+        if (!aa_done) { aa = abs_adjoints(P, dc, ps, w, frozen); aa_done = true; }
+        st.extra["coords_refined"]++;
+        double F = 0; bool okr = aa.ok;
+        for (int s = 0; s < 2 && okr; ++s) {
+          double h = H1 * (s + 1); vector<FV> ap, am;
+          FV vp = val, vm = val; vp[i] = (float)(val[i] + h); vm[i] = (float)(val[i] - h);
+          p.value().reset_by_vector(vp); GradRun rp = eval_L(P, dc, ps, w.size(), nullptr, &frozen, &ap);
+          p.value().reset_by_vector(vm); GradRun rm = eval_L(P, dc, ps, w.size(), nullptr, &frozen, &am);
+          okr = rp.ok && rm.ok && ap.size() == aa.A.size() && am.size() == aa.A.size();
+          double f = 0;
+          for (size_t v = 0; v < aa.A.size() && okr; ++v) for (size_t e = 0; e < aa.A[v].size(); ++e)
+            if (bits(ap[v][e]) != bits(am[v][e])) f += aa.A[v][e] * aa.mu[v];
+          F = std::max(F, f);
+        }
+        p.value().reset_by_vector(val);
+        if (okr) {
+          int pv = 0; for (int q = 0; q < keys[k]; ++q) pv += P.ins[q].nout();
+          double noise2 = std::max(noise, 8 * EPS32 * F / H1), bw = 16 * EPS32 * (aa.Ab[pv][i] + std::fabs((double)g0[k][i]));
+          if (g_verbose) fprintf(stderr, "  refine p%d[%zu] F=%.4g noise'=%.3g absadj=%.4g bw-term=%.3g\n", keys[k], i, F, noise2, aa.Ab[pv][i], bw);
+          tol = 0.01 * scale + 2 * (d + noise2) + 1e-3 * gref + 1e-5 + bw;
+          if (err <= tol) {
+            st.extra["coords_refined_accepted"]++;
+            if (est == 0 && bw > 0) { double &m = st.maxdev["bw_rounding_over_2^-24_absadj"]; m = std::max(m, err * 16 / bw); }
+          }
+        }
+      }
       st.coords++; ++checked; if (scale < 1e-7) st.zero_grad++;
       st.max_err = std::max(st.max_err, err / tol);
       if (g_verbose) fprintf(stderr, "  coord p%d[%zu] g=%.6g fd*=%.6g d=%.3g noise=%.3g err=%.3g tol=%.3g\n", keys[k], i, g, est, d, noise, err, tol);
@@ -169,6 +289,8 @@ static string json_summary(const string &mode, uint64_t seed, const Stats &st) {
   for (auto &e : st.extra) { o << (first ? "" : ",") << "\"" << e.first << "\":" << e.second; first = false; }
   o << "},\"ops\":{"; first = true;
   for (auto &e : st.hist) { o << (first ? "" : ",") << "\"" << e.first << "\":" << e.second; first = false; }
+  o << "},\"gen\":{"; first = true;   // generator: [attempts, rejected with Error, emitted] per function
+  for (int c = 0; c < OP_COUNT; ++c) if (g_gen[c][0]) { o << (first ? "" : ",") << "\"" << OP_NAMES[c] << "\":[" << g_gen[c][0] << "," << g_gen[c][1] << "," << g_gen[c][2] << "]"; first = false; }
   o << "}}";
   return o.str();
 }
